@@ -159,6 +159,26 @@ def model_actions(actions):
     return out
 
 
+LINE_FLAGS_MODELLED = ("-j", "--just")
+
+
+def line_infos(actions, e):
+    """what the real Action.processArgs makes of every dependency line (version words, bracketed expression): the
+    request information of the composed model (coq/Model/SetupFull.v), one entry per action; a line with an option
+    the composed model does not have (-t, --vro, -k, -f, -r, ...) is marked with a leading '!'"""
+    out = []
+    for a in actions:
+        if a.cmd != "setupRequired":
+            out.append("-")
+            continue
+        requestedVRO, name, productDir, vers, versExpr, extra = a.processArgs(e, True)
+        li = "%s~%s" % ("-" if vers is None else "=" + enc(vers), "-" if versExpr is None else "=" + enc(versExpr))
+        if any(x.startswith("-") and x not in LINE_FLAGS_MODELLED for x in a.args) or productDir:
+            li = "!" + li
+        out.append(li)
+    return out
+
+
 def install_decision_spy(log):
     """record, for every forward call of Eups.setup in call order, the version of the product it decided on"""
     import eups
@@ -214,7 +234,8 @@ def run_scenario(world, requests, env0):
                 p = e.findProduct(name, v)
                 tbl = p.getTable()
                 acts = tbl.actions(FLAVOR, setupType=e.setupType) if tbl else []
-                parsed["%s %s" % (name, v)] = {"dir": p.dir, "actions": model_actions(acts)}
+                parsed["%s %s" % (name, v)] = {"dir": p.dir, "actions": model_actions(acts),
+                                               "lines": line_infos(acts, e), "tags": [str(t) for t in p.tags]}
         log = []
         install_decision_spy(log)
         records = []
@@ -268,6 +289,66 @@ def model_line(world, res, rec, fuel=60):
     ds = ",".join("!" if d is None else enc(d) for d in rec["decisions"])
     return "\t".join(["req", world_field(res), cfg, common.enc_env(rec["before"]), "", ds, enc(rq["name"]),
                       "1" if rq.get("fwd", True) else "0", "1" if rq.get("just") else "0", str(fuel)])
+
+
+FLAVORS = [FLAVOR, "generic"]           # utils.Flavor().getFallbackFlavors("Linux64", includeMe=True)
+
+
+def full_applicable(res):
+    """is the world inside the composed model (no dependency line with an option other than -j)?"""
+    return not any(li.startswith("!") for info in res["parsed"].values() for li in info.get("lines", []))
+
+
+def model_line_full(world, res, rec, fuel=60):
+    """the same request for the composed model request_full (coq/Model/SetupFull.v): world, per-line request
+    information, chain files, environment before - and NO decisions: the model resolves every version itself"""
+    rq = rec["request"]
+    md = rq.get("max_depth")
+    cfg = "%s,%s,%s,%s" % (enc(FLAVOR), enc(res["stack"]), "-" if md is None or md < 0 else str(md),
+                           "1" if rq.get("keep") else "0")
+    lines, tags = [], []
+    for key, info in sorted(res["parsed"].items()):
+        name, v = key.split(" ")
+        lines.append("%s:%s:%s" % (enc(name), enc(v), "+".join(info["lines"])))
+        for t in info["tags"]:
+            tags.append("%s~%s~%s" % (enc(name), enc(t), enc(v)))
+    version = rq.get("version")
+    return "\t".join(["full", world_field(res), "|".join(lines), ",".join(tags), cfg, common.enc_env(rec["before"]), "",
+                      enc(rq["name"]), "-" if version is None else "=" + enc(version),
+                      "1" if rq.get("fwd", True) else "0", "1" if rq.get("just") else "0", str(fuel),
+                      ",".join(enc(f) for f in FLAVORS), ""])
+
+
+def model_result_full(line):
+    f = line.split("\t")
+    dec_ds = lambda x: [None if d == "!" else common.dec(d) for d in x.split(",")] if x else []
+    if f[0] == "ok":
+        return {"ok": True, "env": dict(common.dec_env(f[1])), "aliases": dict(common.dec_env(f[2] if len(f) > 2 else "")),
+                "decisions": dec_ds(f[3] if len(f) > 3 else "")}
+    if f[0] == "fail":
+        return {"ok": False, "kind": "fail", "decisions": dec_ds(f[1] if len(f) > 1 else "")}
+    return {"ok": False, "kind": "err:" + "\t".join(f[1:])}
+
+
+def compare_full(ctx, world, res, rec, mres):
+    """composed model (resolver included) vs implementation for one request: success, environment, aliases, and
+    the versions decided along the way"""
+    case = {"world": world, "request": rec["request"], "before": rec["before"], "composed": True}
+    if mres.get("kind", "").startswith("err"):
+        ctx.disagree(case, mres, {"ok": rec["ok"], "outcome": rec["outcome"]}, where="composed-model-error")
+        return
+    if rec["ok"] != mres["ok"]:
+        ctx.disagree(case, mres, {"ok": rec["ok"], "outcome": rec["outcome"], "decisions": rec["decisions"]},
+                     where="composed-success")
+        return
+    if mres["decisions"] != rec["decisions"]:
+        ctx.disagree(case, {"decisions": mres["decisions"]}, {"decisions": rec["decisions"]}, where="composed-decisions")
+        return
+    if rec["ok"] and (mres["env"] != rec["after"] or mres["aliases"] != rec["aliases"]):
+        diff = {k: (mres["env"].get(k), rec["after"].get(k)) for k in set(mres["env"]) | set(rec["after"])
+                if mres["env"].get(k) != rec["after"].get(k)}
+        ctx.disagree(case, {"env_diff(model,impl)": diff, "aliases": mres["aliases"]}, {"aliases": rec["aliases"]},
+                     where="composed-environment")
 
 
 def model_result(line):
@@ -450,6 +531,15 @@ def run_scenarios(ctx, scenarios, oracle, nproc=14):
     for out, (s, r, rec) in zip(outs, meta):
         compare(ctx, s["world"], r, rec, model_result(out))
         ctx.traces_validated += 1
+    # the composed model (setup + resolver, coq/Model/SetupFull.v): same requests, no decisions fed
+    fmeta = [(s, r, rec) for (s, r, rec) in meta if full_applicable(r)]
+    ctx.bump("composed-model-outside-restrictions", len(meta) - len(fmeta))
+    fouts = ctx.model([model_line_full(s["world"], r, rec) for (s, r, rec) in fmeta], pid="C01")
+    for out, (s, r, rec) in zip(fouts, fmeta):
+        compare_full(ctx, s["world"], r, rec, model_result_full(out))
+        ctx.bump("composed-model-comparisons")
+        if len(rec["decisions"]) > 1:
+            ctx.bump("composed-model-comparisons-with-dependencies")
     wf_fraction(ctx, [r[1] for r in results])
     for s, r in zip(scenarios, results):
         oracle(ctx, s, r[1])
